@@ -4,7 +4,8 @@ from .. import x as X
 # includes pairs where one name is another one plus the filename separator (x / x_y, rig_b vs task rig, Al / Al_1)
 # ... and names that are words of another level's vocabulary, fixed folder names of the layout, digits only, upper case
 NAME_POOL = ["bob", "bob-x", "bob.x", "bob+x", "alice", "Al", "Al_1", "x", "x_y", "dagger", "o0", "Zed", "a", "rig_b", "rig",
-             "char", "WORK", "hamlet", "v001", "007", "BOB", "PROD", "OUTPUT", "w", "zoé", "Ünal_ß"]
+             "char", "WORK", "hamlet", "v001", "007", "BOB", "PROD", "OUTPUT", "w", "zoé", "Ünal_ß",
+             "zoe\u0301", "Dr.X", "skull.V2"]      # (NFD twin of "zoé"; upper case after a dot)
 PLAIN_NAMES = ["bob", "alice", "dagger", "Zed", "o0", "a"]
 VERSION_NUMS = [0, 1, 2, 3, 9, 10, 11, 99, 100, 101, 127, 128, 129, 255, 256, 511, 512, 998, 999]
 CROWD_NAMES = ["n%03d" % i for i in range(110)] + ["a_very_long_asset_name_of_more_than_forty_characters_x"]
@@ -63,6 +64,10 @@ class Vocab:
         if not allow_dot:
             self.names = [n for n in self.names if "." not in n]
         self.alias_names = set(model.alias)
+        if names is None or len(self.names) > 12:
+            # free-form names that CONTAIN the text of an extension alias or of one of its members ('lighthouse' holds 'hou')
+            al = sorted(model.alias)
+            self.names += ["light%sse" % a for a in al[:2]] + ["%s_poster" % a for a in al[-1:]]
         # the configuration's own file-name separator(s): literal text between two placeholders of a file name
         import re as _re
         seps = set()
